@@ -1,4 +1,5 @@
 import PyamgV.Proofs.ExtC05ZPd
+import PyamgV.Proofs.ExtC05ZCf
 
 /-! PyamgV (C05, extension E47): **flag `True` and two Booleans evaluated on the concrete data ⇒ the executed
 preconditioner matrix `denseM` is symmetric positive definite.**
@@ -10,8 +11,8 @@ checkers `c05Check` (E23) and `c05SpdCheck` (`Proofs/ExtC05ZCheck.lean`):
 
 * `mget_mmul`, `galB_sound`: the dense Galerkin test gives `A' = R ∘ A ∘ P` for the CSR operators;
 * `invB_sound`: a successful elimination gives the right inverse `coarseS` (`CoarseInv`);
-* `nonExpB_sound`, `strictB_sound`: the parameter tests give `NonExpSm` / `StrictSm` of E36 (damped Jacobi through
-  `jacB_sound`);
+* `nonExpB_sound`, `strictB_sound`: the parameter tests give `NonExpSmZ` (`NonExpSm` of E36 plus cf / fc Jacobi,
+  `Proofs/ExtC05ZCf.lean`) / `StrictSm` of E36 (damped Jacobi through `jacB_sound`);
 * `wfg_abs`: the model hierarchy is a hierarchy "as the constructors build it" (`WFG` of `Proofs/C02Thm.lean`);
 * `quad_of_op`: from `⟨M A v, A v⟩ > 0` on vectors of non-zero energy to `xᵀ M x > 0` for every `x ≠ 0`
   (finest matrix positive definite and invertible);
@@ -93,7 +94,7 @@ theorem invB_sound (A : K.Csr R) (h : invB A = true) : CoarseInv A (coarseS A) :
 
 theorem nonExpB_sound (isPos : R → Bool) (hpos : ∀ z, isPos z = true → 0 < z) (ofRat : Rat → R)
     (hof : ∀ q, ofRat q = (q : R)) (A : K.Csr R) (hc : colsOk A A.n = true) (s : Sm)
-    (h : nonExpB isPos ofRat A s = true) : C05Y.NonExpSm A.n (rowOf A) (diagFn A) s := by
+    (h : nonExpB isPos ofRat A s = true) : NonExpSmZ A.n (rowOf A) (diagFn A) s := by
   cases s with
   | none => trivial
   | gs ω sw k =>
@@ -106,11 +107,15 @@ theorem nonExpB_sound (isPos : R → Bool) (hpos : ∀ z, isPos z = true → 0 <
     refine ⟨by exact_mod_cast h.1, ?_⟩
     have := jacB_sound isPos hpos (ofRat ω) A hc h.2
     rwa [hof] at this
-  | cfjac c ω it fi ci => exact absurd h (by simp [nonExpB])
+  | cfjac c ω it fi ci =>
+    simp only [nonExpB, Bool.and_eq_true, decide_eq_true_eq] at h
+    refine ⟨by exact_mod_cast h.1, ?_⟩
+    have := jacB_sound isPos hpos (ofRat ω) A hc h.2
+    rwa [hof] at this
 
 theorem strictB_sound (isPos : R → Bool) (hpos : ∀ z, isPos z = true → 0 < z) (ofRat : Rat → R)
     (hof : ∀ q, ofRat q = (q : R)) (A : K.Csr R) (hc : colsOk A A.n = true) (s : Sm)
-    (h : strictB isPos ofRat A s = true) : C05Y.StrictSm A.n (rowOf A) (diagFn A) s := by
+    (h : strictB isPos ofRat A s = true) : StrictSmZ A.n (rowOf A) (diagFn A) s := by
   cases s with
   | none => exact absurd h (by simp [strictB])
   | gs ω sw k =>
@@ -123,7 +128,19 @@ theorem strictB_sound (isPos : R → Bool) (hpos : ∀ z, isPos z = true → 0 <
     refine ⟨by exact_mod_cast h.1.1, h.1.2, ?_⟩
     have := jacB_sound isPos hpos (ofRat ω) A hc h.2
     rwa [hof] at this
-  | cfjac c ω it fi ci => exact absurd h (by simp [strictB])
+  | cfjac c ω it fi ci =>
+    simp only [strictB, Bool.and_eq_true, decide_eq_true_eq] at h
+    obtain ⟨⟨⟨⟨h1, h2⟩, h3⟩, h4⟩, h5⟩ := h
+    refine ⟨by exact_mod_cast h1, h2, h3, h4, ?_⟩
+    have := jacB_sound isPos hpos (ofRat ω) A hc h5
+    rwa [hof] at this
+
+theorem fpts_cover (A : K.Csr R) (C : List Nat) (i : Nat) (hi : i < A.n) : i ∈ C ∨ i ∈ fpts A C := by
+  by_cases h : i ∈ C
+  · exact Or.inl h
+  · right
+    unfold fpts
+    simp [hi, h]
 
 /-! ### the hierarchy -/
 
@@ -135,7 +152,7 @@ def topOp (Ac : K.Csr R) (Ls : List (Lvl R)) : (Nat → R) →ₗ[R] (Nat → R)
 def SpdH (Ac : K.Csr R) : List (Lvl R) → Prop
   | [] => True
   | L :: rest =>
-      C05Y.NonExpSm L.A.n (rowOf L.A) (diagFn L.A) L.pre ∧ C05Y.NonExpSm L.A.n (rowOf L.A) (diagFn L.A) L.post ∧
+      NonExpSmZ L.A.n (rowOf L.A) (diagFn L.A) L.pre ∧ NonExpSmZ L.A.n (rowOf L.A) (diagFn L.A) L.post ∧
       topOp Ac rest = csrOp L.R.n (rowOf L.R) ∘ₗ csrOp L.A.n (rowOf L.A) ∘ₗ csrOp L.P.n (rowOf L.P) ∧
       CoarseInv (nextA Ac rest) (coarseS (nextA Ac rest)) ∧ SpdH Ac rest
 
@@ -252,9 +269,11 @@ theorem wfg_abs (Ac : K.Csr R) (S : (Nat → R) →ₗ[R] (Nat → R)) (hS : Coa
     have hnn := nextA_n Ac rest L.R.n hrest
     refine ⟨rfl, hP, ?_, ?_, ?_, ?_⟩
     · intro hs' hp'
-      exact C05Y.smFn_nonexp L.A.n (rowOf L.A) hs' hp' (diagFn L.A) hdiag L.C (fpts L.A L.C) L.pre hne1
+      exact smFn_nonexpZ L.A.n (rowOf L.A) hs' hp' (diagFn L.A) hdiag L.C (fpts L.A L.C) hC (fpts_lt L.A L.C) hCn
+        (fpts_nodup L.A L.C) L.pre hne1
     · intro hs' hp'
-      exact C05Y.smFn_nonexp L.A.n (rowOf L.A) hs' hp' (diagFn L.A) hdiag L.C (fpts L.A L.C) L.post hne2
+      exact smFn_nonexpZ L.A.n (rowOf L.A) hs' hp' (diagFn L.A) hdiag L.C (fpts L.A L.C) hC (fpts_lt L.A L.C) hCn
+        (fpts_nodup L.A L.C) L.post hne2
     · intro r
       refine ⟨coarseS (nextA Ac rest) (csrOp L.R.n (rowOf L.R) r), ?_⟩
       show (csrOp L.R.n (rowOf L.R) ∘ₗ csrOp L.A.n (rowOf L.A) ∘ₗ csrOp L.P.n (rowOf L.P)) _ = _
@@ -353,7 +372,7 @@ theorem denseM_pd (isPos : R → Bool) (hpos : ∀ z, isPos z = true → 0 < z) 
     have hAn : L.A.n = n := hshape.1
     obtain ⟨hL, _⟩ := inRangeH_spec Ac (L :: rest) hr
     obtain ⟨cA, _, _⟩ := hL L (by simp)
-    obtain ⟨_, hdiag⟩ := hok L (by simp)
+    obtain ⟨hCn, hdiag⟩ := hok L (by simp)
     subst hAn
     have hsymA := hsym.1
     have hpsd := pdB_csr_psd isPos hpos L.A cA hpdA
@@ -375,11 +394,13 @@ theorem denseM_pd (isPos : R → Bool) (hpos : ∀ z, isPos z = true → 0 < z) 
           (absLvl L).post := by
       rcases hstr with hs1 | hs1
       · left
-        exact C05Y.smFn_strict L.A.n (rowOf L.A) hsymA hpsd (diagFn L.A) (fun i hi => (hdiag i hi).1) hdpos'
-          L.C (fpts L.A L.C) L.pre (strictB_sound isPos hpos ofRat hof L.A cA L.pre hs1)
+        exact smFn_strictZ L.A.n (rowOf L.A) hsymA hpsd (diagFn L.A) (fun i hi => (hdiag i hi).1) hdpos'
+          L.C (fpts L.A L.C) hshape.2.2.1 (fpts_lt L.A L.C) hCn (fpts_nodup L.A L.C) (fpts_cover L.A L.C)
+          L.pre (strictB_sound isPos hpos ofRat hof L.A cA L.pre hs1)
       · right
-        exact C05Y.smFn_strict L.A.n (rowOf L.A) hsymA hpsd (diagFn L.A) (fun i hi => (hdiag i hi).1) hdpos'
-          L.C (fpts L.A L.C) L.post (strictB_sound isPos hpos ofRat hof L.A cA L.post hs1)
+        exact smFn_strictZ L.A.n (rowOf L.A) hsymA hpsd (diagFn L.A) (fun i hi => (hdiag i hi).1) hdpos'
+          L.C (fpts L.A L.C) hshape.2.2.1 (fpts_lt L.A L.C) hCn (fpts_nodup L.A L.C) (fpts_cover L.A L.C)
+          L.post (strictB_sound isPos hpos ofRat hof L.A cA L.post hs1)
     have hpd := C05Y.cycle_precond_pd (fun b => coarseS Ac b) (C05.ctype c) (absLvl L).toLevel
       ((rest.map absLvl).map (fun (x : LinLevel R (Nat → R)) => x.toLevel)) (topOp Ac (L :: rest))
       (Mop (coarseS Ac) (C05.ctype c) ((L :: rest).map absLvl))
